@@ -223,7 +223,7 @@ class IBAN(common.Base):
         return True
 
     def _validate_characters(self) -> None:
-        if not re.match(r"[A-Z]{2}\d{2}[A-Z]*", self):
+        if not re.fullmatch(r"[A-Z]{2}[0-9]{2}[A-Z0-9]*", self):
             raise exceptions.InvalidStructure(f"Invalid characters in IBAN {self!s}")
 
     def _validate_length(self) -> None:
